@@ -1,14 +1,108 @@
 /-
-  Driver.C04 — line protocol front end for property C04 (stub: not built yet).
+  Driver.C04 — line protocol for reverse-mode differentiation (records on one tape).
+
+    @ tape fp|rat                 new case: one WengertList, element type Fp or Rat   → ok
+    <instruction line>            (Driver/Prog.lean)      → v=<value> const=<0|1> ## idx=<index>
+    derivs <r>                    Record::derivatives     → d=<∂r/∂x per input, in creation order>
+                                                             ## full=<the whole vector>
+                                                          | panic(explicit)      (r is a constant)
+    tryderivs <r>                 Record::try_derivatives → some d=… ## full=… | none
+
+  Before `##`: what C04 speaks about, computed from the *specification* (`Prog.eval`,
+  `Prog.grad`, `Prog.deps`).  After it: the code-shaped model's tape layout.  The model's own
+  value / derivative / constness answers are compared with the specification's on every line
+  (`MODEL-SPEC-DISAGREE` is a machinery error: the theorems of Props/C04 say they coincide).
 -/
-import Driver.Parse
+import Driver.Prog
 
 namespace Driver.C04
+open EasyMl EasyMl.Spec Driver
 
-abbrev State := Unit
+structure PState (R : Type) where
+  prog : List (Instr R) := []
+  envL : List (Nat × R) := []
+  vs : List R := []
+  deps : List Bool := []
+  recs : List (Rec R) := []
+  w : World R := World.empty
+  names : Names := []
 
-def init : State := ()
+inductive State where
+  | none
+  | fp (s : PState Fp)
+  | rat (s : PState Rat)
 
-def step (s : State) (_toks : List String) : State × String := (s, "unimplemented")
+def init : State := .none
+
+section
+variable {R : Type} [Elem R]
+
+def flag (ok : Bool) (s : String) : String := if ok then s else s ++ " MODEL-SPEC-DISAGREE"
+
+def stepInstr (s : PState R) (name : String) (ins : Instr R) (x : Option R) : PState R × String :=
+  let pos := s.vs.length
+  let envL := match x with
+    | some x => (pos, x) :: s.envL
+    | none => s.envL
+  let env := envOf envL
+  let v := ins.val env s.vs
+  let dep := ins.dep s.deps
+  let (w', out) := ins.exec 0 env s.recs s.w
+  match out with
+  | .ok r =>
+    let agree := r.number == v && r.isConstant == !dep
+    ({ prog := s.prog ++ [ins], envL := envL, vs := s.vs ++ [v], deps := s.deps ++ [dep],
+       recs := s.recs ++ [r], w := w', names := (name, pos) :: s.names },
+     flag agree s!"v={Elem.render v} const={if dep then 0 else 1} ## idx={r.index}")
+  | .panic k => ({ s with w := w' }, s!"MODEL-SPEC-DISAGREE panic({k})")
+
+/-- the gradient of instruction `k` with respect to every input, from the specification -/
+def specGrad (s : PState R) (k : Nat) : List R :=
+  (Prog.vars s.prog).map fun i => (Prog.grad (envOf s.envL) s.prog i).getD k 0
+
+def stepDerivs (s : PState R) (k : Nat) (try_ : Bool) : String :=
+  let dep := s.deps.getD k false
+  let r := getRec s.recs k
+  if !dep then
+    let modelConst := match r.tryDerivatives s.w with
+      | .ok none => true
+      | _ => false
+    flag modelConst (if try_ then "none" else "panic(explicit)")
+  else
+    let g := specGrad s k
+    match r.derivatives s.w with
+    | .ok full =>
+      let mine := (Prog.vars s.prog).map fun i => full.getD (getRec s.recs i).index 0
+      flag (beqList mine g)
+        s!"{if try_ then "some " else ""}d={renderList g} ## full={renderList full}"
+    | .panic kind => s!"MODEL-SPEC-DISAGREE panic({kind})"
+
+def stepP (s : PState R) (toks : List String) : PState R × String :=
+  match toks with
+  | ["derivs", r] | ["derivs", r, _] =>
+    match s.names.find r with
+    | some k => (s, stepDerivs s k false)
+    | none => (s, "bad-ref")
+  | ["tryderivs", r] | ["tryderivs", r, _] =>
+    match s.names.find r with
+    | some k => (s, stepDerivs s k true)
+    | none => (s, "bad-ref")
+  | _ :: name :: _ =>
+    match parseInstr (R := R) s.names toks with
+    | some (ins, x) => stepInstr s name ins x
+    | none => (s, if knownOp toks then "bad-ref" else "bad-op")
+  | _ => (s, "bad-op")
+
+end
+
+def step (s : State) (toks : List String) : State × String :=
+  match toks with
+  | "@" :: "tape" :: "fp" :: _ => (.fp {}, "ok")
+  | "@" :: "tape" :: "rat" :: _ => (.rat {}, "ok")
+  | _ =>
+    match s with
+    | .none => (s, "bad-op")
+    | .fp p => let (p', a) := stepP p toks; (.fp p', a)
+    | .rat p => let (p', a) := stepP p toks; (.rat p', a)
 
 end Driver.C04
